@@ -9,6 +9,8 @@ one() {
   [ "$id" = "C13-L" ] && extra="C13 C15"
   [ "$id" = "C07-L" ] && extra="C07 C19"
   [ "$id" = "C11-N" ] && extra="C11 C02 C04"
+  [ "$id" = "C07-M" ] && extra="C07 C18"
+  [ "$id" = "C07-N" ] && extra="C07 C01"
   out=$(tools/seedtest.sh "$prop" "$d/patch.diff" "$d/demo_test.go" quick $extra 2>&1)
   keys=$(echo "$out" | grep -c '^  key=')
   conf=$(echo "$out" | grep -E '^(demo_without|suite_with|demo_with)=' | tr '\n' ' ')
